@@ -36,8 +36,8 @@ Quirks kept as they are:
   centroid — afterwards; `CenteredInstanceStreamingDataset` re-crops to `int(crop_hw * scale)`;
   `CenteredInstanceDataset` resizes the frame first and crops with the un-scaled crop size;
 * `generate_centroids` returns a view of its argument when `anchor_ind` is given and fills the
-  missing anchors **in place** (finding F-C11).  `alias := true` models the tree with that defect,
-  `alias := false` the repaired tree; the harness probes the real function and passes the flag.
+  missing anchors **in place** (finding F-C11).  `aliasing := true` models the tree with that defect,
+  `aliasing := false` the repaired tree; the harness probes the real function and passes the flag.
 -/
 namespace SleapVerif.Pipelines
 open SleapVerif.Scalar
@@ -130,7 +130,7 @@ structure Cfg (R : Type) where
   /-- `get_max_instances(labels)` -/
   maxInstances : Nat
   /-- does `generate_centroids` write through its argument (F-C11 present)? -/
-  alias : Bool
+  aliasing : Bool
 
 /-- a labelled frame: raw image dimensions and `lf.instances` (user instances, possibly empty ones) -/
 structure Frame (R : Type) where
@@ -241,10 +241,10 @@ def centroidOf (anchor : Option Nat) (i : Inst R) : Pt R :=
   | none => midpoint i
 
 /-- what `generate_centroids` leaves in its *argument* for one row -/
-def writeBack (alias : Bool) (anchor : Option Nat) (i : Inst R) : Inst R :=
+def writeBack (aliasing : Bool) (anchor : Option Nat) (i : Inst R) : Inst R :=
   match anchor with
   | some a => match i[a]? with
-    | some none => if alias then i.set a (midpoint i) else i
+    | some none => if aliasing then i.set a (midpoint i) else i
     | _ => i
   | none => i
 
@@ -269,15 +269,23 @@ structure Crop (R : Type) where
   cen : Pt R
   deriving DecidableEq, Repr
 
-/-- `generate_crops(image, instance, centroid, (h, w))` -/
-def generateCrops (N : Num R) (img : Img R) (inst : Inst R) (cen : Pt R) (h w : Nat) : Crop R :=
+/-- the coordinate half of `generate_crops`: bbox, keypoints and centroid relative to the crop -/
+structure CropCoords (R : Type) where
+  bbox : List (Pt R)
+  inst : Inst R
+  cen : Pt R
+
+def cropCoords (N : Num R) (inst : Inst R) (cen : Pt R) (h w : Nat) : CropCoords R :=
   match cen with
   | some c =>
-    { img := .crop cen h w img, bbox := (bboxOf N c h w).map some,
-      inst := inst.map (subPt (topLeft N c h w)), cen := subPt (topLeft N c h w) cen }
-  | none =>
-    { img := .crop none h w img, bbox := List.replicate 4 none,
-      inst := inst.map fun _ => none, cen := none }
+    { bbox := (bboxOf N c h w).map some, inst := inst.map (subPt (topLeft N c h w)),
+      cen := subPt (topLeft N c h w) cen }
+  | none => { bbox := List.replicate 4 none, inst := inst.map fun _ => none, cen := none }
+
+/-- `generate_crops(image, instance, centroid, (h, w))` -/
+def generateCrops (N : Num R) (img : Img R) (inst : Inst R) (cen : Pt R) (h w : Nat) : Crop R :=
+  { img := .crop cen h w img, bbox := (cropCoords N inst cen h w).bbox,
+    inst := (cropCoords N inst cen h w).inst, cen := (cropCoords N inst cen h w).cen }
 
 /-! ## shared front end -/
 
@@ -318,7 +326,7 @@ def torchCentroid (N : Num R) (np : Bool) (cfg : Cfg R) (fr : Frame R) : Sample 
   let e := effScale N fr cfg.maxH cfg.maxW
   let insts := applyResizerPts cfg.scale (pl.1.map (scaleInst e))
   { img := q8If np (.padStride cfg.maxStride (applyResizer cfg.scale (base cfg.isRgb cfg.maxH cfg.maxW))),
-    instances := insts.map (writeBack cfg.alias cfg.anchor),
+    instances := insts.map (writeBack cfg.aliasing cfg.anchor),
     centroids := insts.map (centroidOf cfg.anchor),
     bbox := [], numInstances := pl.2, rank := 3 }
 
@@ -334,7 +342,7 @@ def torchCentered (N : Num R) (np : Bool) (cfg : Cfg R) (fr : Frame R) (k : Nat)
   let inst0 := ((nonEmpty fr.insts)[k]?).getD []
   let inst1 := ((applyResizerPts cfg.scale [scaleInst e inst0])[0]?).getD []
   let img := applyResizer cfg.scale (base cfg.isRgb cfg.maxH cfg.maxW)
-  let c1 := generateCrops N img (writeBack cfg.alias cfg.anchor inst1) (centroidOf cfg.anchor inst1)
+  let c1 := generateCrops N img (writeBack cfg.aliasing cfg.anchor inst1) (centroidOf cfg.anchor inst1)
     (cropExtra cfg.cropH) (cropExtra cfg.cropW)
   recrop N cfg.maxStride { c1 with img := q8If np c1.img } cfg.cropH cfg.cropW fr.insts.length 3
 
@@ -357,7 +365,7 @@ def streamCentroid (N : Num R) (cfg : Cfg R) (fr : Frame R) : Sample R :=
   let insts := pl.1.map (scaleInst e)
   { img := .padStride cfg.maxStride
       (.quant8 (applyResizer cfg.scale (base cfg.isRgb (chunkMaxH cfg) (chunkMaxW cfg)))),
-    instances := insts.map (writeBack cfg.alias cfg.anchor),
+    instances := insts.map (writeBack cfg.aliasing cfg.anchor),
     centroids := applyResizerCen cfg.scale (insts.map (centroidOf cfg.anchor)),
     bbox := [], numInstances := pl.2, rank := 3 }
 
@@ -367,7 +375,7 @@ def streamCentered (N : Num R) (cfg : Cfg R) (fr : Frame R) (k : Nat) : Sample R
   let pl := processLf cfg.maxInstances fr.insts
   let e := effScale N fr (chunkMaxH cfg) (chunkMaxW cfg)
   let insts := pl.1.map (scaleInst e)
-  let inst := (((insts.map (writeBack cfg.alias cfg.anchor))[k]?).getD [])
+  let inst := (((insts.map (writeBack cfg.aliasing cfg.anchor))[k]?).getD [])
   let cen := (((insts.map (centroidOf cfg.anchor))[k]?).getD none)
   let c1 := generateCrops N (base cfg.isRgb (chunkMaxH cfg) (chunkMaxW cfg)) inst cen
     (cropExtra cfg.cropH) (cropExtra cfg.cropW)
@@ -432,11 +440,11 @@ def fnPadToStride (m : Nat) (i : Img R) : Img R := .padStride m i
 def dpPadToStride (m : Nat) (i : Img R) : Img R := fnPadToStride m i
 
 /-- `generate_centroids(instances, anchor_ind)`: (returned centroids, what is left in the argument) -/
-def fnCentroids (alias : Bool) (anchor : Option Nat) (l : List (Inst R)) : List (Pt R) × List (Inst R) :=
-  (l.map (centroidOf anchor), l.map (writeBack alias anchor))
+def fnCentroids (aliasing : Bool) (anchor : Option Nat) (l : List (Inst R)) : List (Pt R) × List (Inst R) :=
+  (l.map (centroidOf anchor), l.map (writeBack aliasing anchor))
 /-- `InstanceCentroidFinder.__iter__` -/
-def dpCentroidFinder (alias : Bool) (anchor : Option Nat) (l : List (Inst R)) :
-    List (Pt R) × List (Inst R) := fnCentroids alias anchor l
+def dpCentroidFinder (aliasing : Bool) (anchor : Option Nat) (l : List (Inst R)) :
+    List (Pt R) × List (Inst R) := fnCentroids aliasing anchor l
 
 /-- `InstanceCropper.__iter__`: one crop per `(instance, centroid)` pair, stopping at `num_instances` -/
 def dpInstanceCropper (N : Num R) (h w : Nat) (img : Img R) (insts : List (Inst R))
